@@ -1063,3 +1063,13 @@ Proof.
     destruct (index_some x o2) as (i & ->); [eapply Permutation_in; eassumption|reflexivity]. }
   rewrite Ha. cbn [negb]. rewrite andb_false_r. reflexivity.
 Qed.
+
+(* invariance of the polynomial reference (for C15), from its equality with sc_decide *)
+Corollary sc_conflict_decide_perm alts alts' orders orders' :
+  Permutation alts alts' -> Permutation orders orders' ->
+  sc_conflict_decide alts orders = sc_conflict_decide alts' orders'.
+Proof. intros Ha Ho. rewrite !sc_conflict_decide_eq. now apply sc_decide_perm. Qed.
+
+Corollary sc_conflict_decide_relabel (f : N -> N) : (forall x y, f x = f y -> x = y) ->
+  forall alts orders, sc_conflict_decide (map f alts) (map (map f) orders) = sc_conflict_decide alts orders.
+Proof. intros Hf alts orders. rewrite !sc_conflict_decide_eq. now apply sc_decide_relabel. Qed.
